@@ -65,9 +65,10 @@ class C01(Profile):
         big = tier == "thorough"
         g = Gen(
             rng, engines=["it", "it2"] if rng.random() < 0.5 else ["it"],
-            weights={**UNARY_W, "chain": 2, "mat": 1, "xfer": 1, "leaf": 1, "run": 2,
-                     "cursor_open": 1.5, "pull": 3, "abandon": 0.4},
-            max_ops=16 if big else 10, udf_p=0.08, special_leaf_p=0.06, pipeline_p=0.3,
+            weights={**UNARY_W, "chain": 2, "mat": 1, "xfer": 1, "leaf": 1, "run": 2, "reuse_mat": 0.6,
+                     "cursor_open": 1.5, "pull": 3, "abandon": 0.4, "custom": 1.5, "process": 0.4,
+                     "flag_on_processed": 0.4},
+            max_ops=16 if big else 10, udf_p=0.08, special_leaf_p=0.06, pipeline_p=0.3, flags_p=0.1, redeclare_p=0.12,
             bounds=("exact", "exact", "loose", "zeromin", "unbounded"),
         )
         ops = g.build()
@@ -120,7 +121,7 @@ def multi_gen(rng, tier, *, weights, flags_p=0.5, engines=None, max_ops=None, **
     return {"config": swarm_config(rng), "ops": g.build()}
 
 
-MULTI_W = {**UNARY_W, "xfer": 4, "mat": 1.2, "chain": 1, "join": 1.2, "leaf": 1, "chain_empty": 0.3, "roundtrip_empty": 0.25, "mark": 0.6}
+MULTI_W = {**UNARY_W, "xfer": 4, "mat": 1.2, "chain": 1, "join": 1.2, "leaf": 1, "chain_empty": 0.3, "roundtrip_empty": 0.25, "mark": 0.6, "custom": 0.8, "marker_tower": 0.25}
 
 
 class C03(Profile):
@@ -205,7 +206,7 @@ class C03(Profile):
         return meaning(plain) == meaning(entry.rel)
 
     def gen(self, rng, tier):
-        return multi_gen(rng, tier, weights={**MULTI_W, "process": 1.5, "join": 2}, flags_p=0.6, udf_p=0.04)
+        return multi_gen(rng, tier, weights={**MULTI_W, "process": 1.5, "join": 2, "flag_on_processed": 0.8}, flags_p=0.6, udf_p=0.04)
 
     def dn_keys(self, run):
         from .world import shape
@@ -267,8 +268,9 @@ class C05(Profile):
         big = tier == "thorough"
         eng = rng.choice(["it", "sql"])
         g = Gen(rng, engines=[eng],
-                weights={"calc": 2, "proj": 3, "sel": 3, "dedup": 1, "sort": 3, "slice": 4, "chain": 0.5, "leaf": 0.5},
-                max_ops=14 if big else 9, nleaves=(1, 2), adjacent_p=0.6, total_sort_p=0.3, pipeline_p=0.3)
+                weights={"calc": 2, "proj": 3, "sel": 3, "dedup": 1, "sort": 3, "slice": 4, "chain": 0.5, "leaf": 0.5,
+                         "custom": 2 if eng == "it" else 0},
+                max_ops=14 if big else 9, nleaves=(1, 2), adjacent_p=0.6, total_sort_p=0.3, pipeline_p=0.3, stride_order_only=True)
         return {"config": swarm_config(rng), "ops": g.build()}
 
     def dn_keys(self, run):
@@ -299,7 +301,8 @@ class C06(Profile):
         big = tier == "thorough"
         mode = rng.choice(["sql", "it", "multi"])
         engines = {"sql": ["sql"], "it": ["it"], "multi": ["sql", "it"]}[mode]
-        w = {**UNARY_W, "chain": 2.5, "chain_empty": 1, "join": 2.5 if mode != "it" else 0, "leaf": 2, "mat": 0.5}
+        w = {**UNARY_W, "chain": 2.5, "chain_empty": 1, "join": 2.5 if mode != "it" else 0, "leaf": 2, "mat": 0.5,
+             "custom": 1 if mode != "sql" else 0}
         if mode == "multi":
             w["xfer"] = 2
         g = Gen(rng, engines=engines, weights=w, max_ops=13 if big else 9, nleaves=(2, 3),
@@ -346,9 +349,9 @@ class C07(Profile):
 
     def gen(self, rng, tier):
         w = {**UNARY_W, "xfer": 5, "mat": 3, "chain": 1.5, "chain_empty": 1.2, "roundtrip_empty": 0.5, "roundtrip_mat": 0.3, "join": 0.6, "leaf": 1.5, "process": 5, "run": 1,
-             "mark": 1.2}
+             "mark": 1.2, "flag_on_processed": 0.8, "custom": 0.6, "marker_tower": 1.0}
         return multi_gen(rng, tier, weights=w, flags_p=0.15, special_leaf_p=0.12, udf_p=0.06,
-                         bounds=("exact", "loose", "zeromin", "unbounded"))
+                         bounds=("exact", "loose", "zeromin", "unbounded"), redeclare_p=0.12)
 
     def dn_keys(self, run):
         from .world import shape
@@ -395,8 +398,20 @@ class C09(Profile):
                                  "compile_not_repeatable", "execute_not_repeatable")}
     track_fingerprints = True
     eval_new = True
-    fault_sites = ("leaf_iter", "hook_before", "hook_after", "db_before", "db_after")
+    fault_sites = ("leaf_iter", "hook_before", "hook_after", "db_before", "db_after", "udf")
     fault_fraction = 0.3
+
+    def claim(self, kind, entry, run, v):
+        if kind == "rows_mismatch":
+            # "evaluation is side-effect free" includes evaluations that fail half-way: a wrong result that only exists
+            # because an earlier evaluation in this history was interrupted by a fault belongs here; a wrong result
+            # that the same history shows without any fault does not (it is C01 / C02 / C07 material).
+            if run.shadow or not run.w.fault.total_fired:
+                return None
+            if run.nofault_variant_shows(kind, run.w.op_index):
+                return None
+            return "C09"
+        return self.claims.get(kind)
     dn_rule = ("long mixed histories of factory calls, executions, cursors, process(), diagnostics, rejected and faulted "
                "calls over one shared pool; after every step every earlier relation is re-fingerprinted; distinct = op-kind "
                "sequences of length >= 6 containing a payload attachment, a rejected call or a fault before the last check")
@@ -404,7 +419,7 @@ class C09(Profile):
     def gen(self, rng, tier):
         big = tier == "thorough"
         w = {**UNARY_W, "xfer": 2, "mat": 1.5, "chain": 1.5, "join": 1, "leaf": 1, "process": 2, "run": 3, "rebuild": 3,
-             "twice": 2, "ill": 2, "diag": 1, "cursor_open": 0.7, "pull": 1.5, "abandon": 0.3, "attach": 0.5, "mark": 0.8}
+             "twice": 2, "ill": 2, "diag": 1, "cursor_open": 0.7, "pull": 1.5, "abandon": 0.3, "attach": 0.5, "mark": 0.8, "reuse_mat": 0.6, "flag_on_processed": 0.4, "twin": 0.8}
         return multi_gen(rng, tier, weights=w, flags_p=0.3, max_ops=30 if big else 14,
                          engines=rng.choice([["sql"], ["it"], ["sql", "it"], ["sql", "it", "it2"]]), named_mat=True,
                          redeclare_p=0.15)
@@ -441,9 +456,9 @@ class C10(Profile):
 
     def gen(self, rng, tier):
         w = {"calc": 2, "proj": 2, "sel": 2, "dedup": 1, "sort": 1.5, "slice": 1.5, "xfer": 3, "mat": 5, "chain": 2,
-             "chain_empty": 1.2, "roundtrip_empty": 0.4, "roundtrip_mat": 0.5, "mark": 1.5, "leaf": 1, "process": 5, "run": 4, "attach": 4, "iterate": 2, "cursor_open": 0.5, "pull": 1}
+             "chain_empty": 1.2, "roundtrip_empty": 0.4, "roundtrip_mat": 0.5, "reuse_mat": 0.8, "flag_on_processed": 0.4, "marker_tower": 0.6, "mark": 1.5, "leaf": 1, "process": 5, "run": 4, "attach": 4, "iterate": 2, "cursor_open": 0.5, "pull": 1}
         return multi_gen(rng, tier, weights=w, flags_p=0.1, engines=rng.choice([["it"], ["sql", "it"], ["sql", "it", "it2"]]),
-                         max_ops=18 if tier == "thorough" else 12, udf_p=0.1)
+                         max_ops=18 if tier == "thorough" else 12, udf_p=0.1, redeclare_p=0.1)
 
     def dn_keys(self, run):
         nm = len(run.mat_entries)
@@ -543,7 +558,7 @@ class C15(Profile):
         return self.claims.get(kind)
 
     def gen(self, rng, tier):
-        w = {**UNARY_W, "xfer": 7, "mat": 4, "chain": 1, "join": 1, "leaf": 1, "process": 2, "conform_inner": 1.5, "roundtrip_mat": 0.5, "mark": 1.5}
+        w = {**UNARY_W, "xfer": 7, "mat": 4, "chain": 1, "join": 1, "leaf": 1, "process": 2, "conform_inner": 1.5, "roundtrip_mat": 0.5, "mark": 1.5, "marker_tower": 0.6, "twin": 1.0}
         return multi_gen(rng, tier, weights=w, flags_p=0.55,
                          engines=["sql", "it", "it2"] if rng.random() < 0.6 else ["sql", "it"])
 
@@ -651,7 +666,7 @@ class C18(Profile):
         if not lazy_only:
             w.update({"sort": 2, "dedup": 2, "mat": 2, "xfer": 0.7})
         g = Gen(rng, engines=["it", "it2"] if rng.random() < 0.3 else ["it"], weights=w, max_ops=14 if big else 10,
-                nleaves=(1, 3), leaf_payloads=("simrows", "simrows", "simrows", "seq", "map"), udf_p=0.05)
+                nleaves=(1, 3), leaf_payloads=("simrows", "simrows", "simrows", "simmat", "seq", "map"), udf_p=0.05)
         return {"config": swarm_config(rng), "ops": g.build()}
 
     def dn_keys(self, run):
@@ -670,7 +685,7 @@ class C20(Profile):
                "(edit kind, operation, route root / backtracked / transferred / sql-conformed)")
 
     def gen(self, rng, tier):
-        w = {**UNARY_W, "xfer": 2.5, "mat": 0.8, "chain": 1, "join": 1, "leaf": 1, "ill": 9, "process": 0.5}
+        w = {**UNARY_W, "xfer": 2.5, "mat": 0.8, "chain": 1, "join": 1, "leaf": 1, "ill": 9, "process": 0.5, "custom": 1, "mark": 0.4}
         engines = rng.choice([["sql"], ["it"], ["sql", "it"], ["sql", "it", "it2"]])
         return multi_gen(rng, tier, weights=w, flags_p=0.3, engines=engines, udf_p=0.05)
 
